@@ -149,6 +149,18 @@ def FState.publishRelease (s : FState) (k : Key) (l : Nat) (r : GetResult) : FSt
 def FState.finishThread (s : FState) (t : Nat) (x : Thread) (r : GetResult) : FState :=
   s.setTh t { x with pc := .done, returned := if x.bg then x.returned else some r }
 
+/-- Ghost bookkeeping of a backend answer (provenance sets); control state untouched. -/
+def FState.noteRead (s : FState) (k : Key) (a : ReadAns) : FState :=
+  { s with g := match a with
+      | .hit v => { s.g with backendVals := (k, v) :: s.g.backendVals }
+      | .stale v _ => { s.g with backendVals := (k, v) :: s.g.backendVals }
+      | .err e => { s.g with backendErrs := (k, e) :: s.g.backendErrs }
+      | .miss => s.g }
+def FState.noteWrite (s : FState) (k : Key) (a : WriteAns) : FState :=
+  match a with
+  | .err e => { s with g := { s.g with backendErrs := (k, e) :: s.g.backendErrs } }
+  | .ok => s
+
 inductive FLabel
   | begin (t : Nat) (key : Key) (skipRead : Bool) (cell : Option Int)
   | readAns (t : Nat) (a : ReadAns)
@@ -177,12 +189,7 @@ def step (c : FCfg) (s : FState) : FLabel → Option FState
     else some ((s.setTh t { x with pc := .preRead }).req t (.read key skip))
   | .readAns t a =>
     let x := s.th t
-    let g := match a with
-      | .hit v => { s.g with backendVals := (x.key, v) :: s.g.backendVals }
-      | .stale v _ => { s.g with backendVals := (x.key, v) :: s.g.backendVals }
-      | .err e => { s.g with backendErrs := (x.key, e) :: s.g.backendErrs }
-      | .miss => s.g
-    let s := { s with g := g }
+    let s := s.noteRead x.key a
     match x.pc with
     | .preRead =>
       match a with
@@ -247,9 +254,7 @@ def step (c : FCfg) (s : FState) : FLabel → Option FState
     | _ => none
   | .writeAns t a =>
     let x := s.th t
-    let s := match a with
-      | .err e => { s with g := { s.g with backendErrs := (x.key, e) :: s.g.backendErrs } }
-      | .ok => s
+    let s := s.noteWrite x.key a
     match x.pc with
     | .refreshing =>
       match a with
